@@ -20,6 +20,7 @@ type flowRef struct {
 	Comment string                         `json:"comment"`
 	Sources map[string]map[string][]string `json:"sources"` // area -> "func | source key" -> required facts ("Kind:label", "heap:Kind")
 	Params  map[string]map[string][]string `json:"params"`  // area -> "func | param#i" -> required facts
+	FnSites map[string]map[string][]string `json:"fnsites"` // area -> "func | hint-sites" -> "Kind#n": distinct sink sites reached by the function's hint outputs
 	Exempt  map[string]string              `json:"exempt"`  // "func | source key" -> reason (FLOW-SOME exemptions)
 }
 
@@ -38,7 +39,8 @@ func loadFlowRef() (*flowRef, error) {
 type srcFacts struct {
 	src      *flowSource
 	facts    map[string]flabel
-	children []*srcFacts // same-package call sites receiving the escaping value
+	sites    map[string]map[string]bool // kind -> sink site identities reached locally
+	children []*srcFacts                // same-package call sites receiving the escaping value
 }
 
 // constrained: the source reaches a sink itself, or every same-package call site that receives it does.
@@ -83,9 +85,9 @@ func collectSources(p *Prog, e *flowEngine, scope func(pkg string) bool) map[str
 		if pk == nil {
 			return nil
 		}
-		f := e.Facts(src)
+		f, sites := e.FactsSites(src)
 		key := Abstract(FuncName(src.fn)) + " | " + src.Key()
-		me := &srcFacts{src: src, facts: f}
+		me := &srcFacts{src: src, facts: f, sites: sites}
 		seenSrc[src.call][src.idx] = me
 		out[key] = append(out[key], me)
 		if depth >= 3 {
@@ -278,6 +280,84 @@ func aggregate(srcs map[string][]*srcFacts) (map[string]*fset, map[string][]*src
 	return agg, members
 }
 
+// fnSites: per top-level function that creates hint outputs, the number of distinct sink sites (per kind) reached by
+// any of them, including the sites reached at same-package call sites the value is handed to. Sibling
+// instantiations (curves, generic instances) are merged by minimum.
+var fnSitePos = map[string]token.Pos{}
+
+func fnSites(srcs map[string][]*srcFacts) map[string]map[string]int {
+	type acc map[string]map[string]bool
+	per := map[*ssa.Function]acc{}
+	var collect func(a acc, sf *srcFacts, depth int, seen map[*srcFacts]bool)
+	collect = func(a acc, sf *srcFacts, depth int, seen map[*srcFacts]bool) {
+		if seen[sf] || depth > 3 {
+			return
+		}
+		seen[sf] = true
+		for k, m := range sf.sites {
+			if a[k] == nil {
+				a[k] = map[string]bool{}
+			}
+			for s := range m {
+				a[k][s] = true
+			}
+		}
+		for _, c := range sf.children {
+			collect(a, c, depth+1, seen)
+		}
+	}
+	for _, list := range srcs {
+		for _, sf := range list {
+			if sf.src.kind != "hint" {
+				continue
+			}
+			top := sf.src.fn
+			for top.Parent() != nil {
+				top = top.Parent()
+			}
+			if per[top] == nil {
+				per[top] = acc{}
+			}
+			collect(per[top], sf, 0, map[*srcFacts]bool{})
+		}
+	}
+	out := map[string]map[string]int{}
+	for fn, a := range per {
+		k := Abstract(FuncName(fn)) + " | hint-sites"
+		if old, ok := fnSitePos[k]; !ok || FuncPos(fn) < old {
+			fnSitePos[k] = FuncPos(fn)
+		}
+		cur := map[string]int{}
+		for kind, m := range a {
+			cur[kind] = len(m)
+		}
+		if old, ok := out[k]; ok {
+			for kind, n := range old {
+				if cur[kind] < n {
+					old[kind] = cur[kind]
+				}
+			}
+			for kind := range old {
+				if old[kind] == 0 {
+					delete(old, kind)
+				}
+			}
+		} else {
+			out[k] = cur
+		}
+	}
+	return out
+}
+
+func siteList(m map[string]int) []string {
+	var ks []string
+	for k, n := range m {
+		ks = append(ks, fmt.Sprintf("%s#%d", k, n))
+	}
+	sort.Strings(ks)
+	return ks
+}
+
 func factList(f *fset) []string {
 	var ks []string
 	for k, l := range f.lab {
@@ -403,6 +483,40 @@ func RunFlow(p *Prog, r *Report, e *flowEngine, area string, scope func(pkg stri
 				}
 			}
 			r.Fail("FLOW-REF", FuncPkg(site.src.fn).Path(), FuncName(site.src.fn), parts[len(parts)-1], p.Pos(site.src.call.Pos()), fmt.Sprintf("no longer reaches reviewed sink(s) %s (now: %s)", strings.Join(miss, " "), strings.Join(factList(site.chainFacts(0)), " ")))
+		}
+	}
+	// FLOW-FN: per function, the hint outputs keep reaching as many distinct constraint sites as reviewed
+	fs := fnSites(srcs)
+	var fks []string
+	for k := range ref.FnSites[area] {
+		fks = append(fks, k)
+	}
+	sort.Strings(fks)
+	for _, k := range fks {
+		req := ref.FnSites[area][k]
+		parts := strings.SplitN(k, " | ", 2)
+		cur, ok := fs[k]
+		if !ok {
+			r.Add(&Obligation{Rule: "FLOW-FN", Pkg: "-", Func: parts[0], Key: "hint-sites", Pos: "-", OK: true, Info: true, Detail: "function no longer creates hint outputs (renamed / restructured): its hints remain covered by the package-level FLOW-REF entry"})
+			continue
+		}
+		var miss []string
+		for _, q := range req {
+			i := strings.Index(q, "#")
+			var n int
+			fmt.Sscanf(q[i+1:], "%d", &n)
+			if cur[q[:i]] < n {
+				miss = append(miss, fmt.Sprintf("%s (now %d)", q, cur[q[:i]]))
+			}
+		}
+		pkg := parts[0]
+		if i := strings.LastIndex(pkg, "."); i > 0 {
+			pkg = strings.TrimLeft(pkg[:i], "(*")
+		}
+		if len(miss) == 0 {
+			r.Pass("FLOW-FN", pkg, parts[0], "hint-sites", p.Pos(fnSitePos[k]), "hint outputs of this function reach at least the reviewed number of distinct constraint sites: "+strings.Join(req, " "), true)
+		} else {
+			r.Fail("FLOW-FN", pkg, parts[0], "hint-sites", p.Pos(fnSitePos[k]), "hint outputs of this function reach fewer distinct constraint sites than reviewed: "+strings.Join(miss, ", ")+" — a check on prover-chosen values was dropped or merged")
 		}
 	}
 	if nsrc < minSources {
@@ -554,6 +668,7 @@ func init() {
 		e := newFlowEngine(p, cg)
 		all := map[string]map[string][]string{}
 		allP := map[string]map[string][]string{}
+		allF := map[string]map[string][]string{}
 		var areas []string
 		for a := range flowAreas {
 			areas = append(areas, a)
@@ -564,6 +679,12 @@ func init() {
 				continue
 			}
 			all[a] = emitFlow(p, e, pkgScope(flowAreas[a]...))
+			allF[a] = map[string][]string{}
+			for k, m := range fnSites(collectSources(p, e, pkgScope(flowAreas[a]...))) {
+				if sl := siteList(m); len(sl) > 0 {
+					allF[a][k] = sl
+				}
+			}
 			allP[a] = map[string][]string{}
 			for k, v := range paramFacts(p, e, pkgScope(flowAreas[a]...)) {
 				if fl := factList(v.f); len(fl) > 0 {
@@ -571,7 +692,7 @@ func init() {
 				}
 			}
 		}
-		b, _ := json.MarshalIndent(map[string]any{"sources": all, "params": allP}, "", " ")
+		b, _ := json.MarshalIndent(map[string]any{"sources": all, "params": allP, "fnsites": allF}, "", " ")
 		fmt.Println(string(b))
 		return 0
 	}
